@@ -140,7 +140,7 @@ def constructed_models(d, ctx):
     the individual models.  The slices differ in scale on purpose: repeated or
     nearly repeated Bingham eigenvalues next to strongly concentrated slices,
     cACG / Gaussian covariances of very different magnitude, concentrations
-    from 1e-6 to 500 side by side."""
+    from 1e-6 to 500 (Watson: to 1e4, beyond the overflow of 1F1) side by side."""
     import pb_bss.distribution as dist
     from pb_bss.distribution.complex_bingham import ComplexBingham
     which = d.choice(['bingham', 'bingham', 'cacg', 'watson', 'vmf', 'ccsg', 'gaussian'])
@@ -188,6 +188,14 @@ def constructed_models(d, ctx):
     elif which == 'watson':
         mode = gen.unit(gen.cnormal(rng, (*lead, D)))
         conc = per_slice((), lambda i: 10.0 ** rng.uniform(-6, np.log10(500)))
+        if d.epoch >= 4 and d.aux(61).integers(0, 2) == 0:
+            # concentrations beyond the overflow of 1F1 (~709, supported since
+            # dc3be95) next to small ones in the same stack (C06_r13)
+            arng = d.aux(62)
+            big = 10.0 ** arng.uniform(2.5, 4, size=conc.shape)
+            conc = np.where(arng.integers(0, 2, size=conc.shape) == 0, big, conc)
+            ctx.label('watson-beyond-1f1-overflow' if (conc > 709).any() and (conc < 100).any()
+                      else 'watson-wide')
         y = gen.unit(gen.cnormal(rng, (*lead, N, D)))
         make = lambda idx: dist.ComplexWatson(mode=mode[idx], concentration=np.asarray(conc[idx]))  # noqa
         full = dist.ComplexWatson(mode=mode, concentration=conc)
